@@ -11,6 +11,7 @@ import (
 	"fmt"
 	"os"
 	"strconv"
+	"strings"
 	"testing"
 
 	"github.com/weedbox/pokerface/pot"
@@ -52,6 +53,13 @@ func c02run(c c02case) (*Result, []*pot.Pot) {
 	return r, pots
 }
 
+// VERIF_C02_CHECKS (comma separated) restricts the oracle to the named checks: the chip-conservation half of this
+// harness also stands in for the settlement part of C01.
+func c02skip(name string) bool {
+	allowed := os.Getenv("VERIF_C02_CHECKS")
+	return allowed != "" && !strings.Contains(","+allowed+",", ","+name+",")
+}
+
 func c02oracle(c c02case) *c02failure {
 	r, pots := c02run(c)
 	n := len(c.Wagers)
@@ -66,32 +74,46 @@ func c02oracle(c c02case) *c02failure {
 	var sum int64
 	for _, p := range r.Players {
 		if p.Idx < 0 || p.Idx >= n || seen[p.Idx] {
-			return &c02failure{"players", fmt.Sprintf("result lists player %d twice or out of range", p.Idx), false}
+			if f := (&c02failure{"players", fmt.Sprintf("result lists player %d twice or out of range", p.Idx), false}); !c02skip(f.Check) {
+				return f
+			}
 		}
 		seen[p.Idx] = true
 		changed[p.Idx] = p.Changed
 		sum += p.Changed
 		if p.Final != bankroll+p.Changed {
-			return &c02failure{"final", fmt.Sprintf("player %d: final %d != bankroll %d + change %d", p.Idx, p.Final, bankroll, p.Changed), false}
+			if f := (&c02failure{"final", fmt.Sprintf("player %d: final %d != bankroll %d + change %d", p.Idx, p.Final, bankroll, p.Changed), false}); !c02skip(f.Check) {
+				return f
+			}
 		}
 		if p.Final < 0 {
-			return &c02failure{"final-negative", fmt.Sprintf("player %d: final stack %d", p.Idx, p.Final), false}
+			if f := (&c02failure{"final-negative", fmt.Sprintf("player %d: final stack %d", p.Idx, p.Final), false}); !c02skip(f.Check) {
+				return f
+			}
 		}
 	}
 	for i := 0; i < n; i++ {
 		if !seen[i] {
-			return &c02failure{"players", fmt.Sprintf("player %d missing from the result", i), false}
+			if f := (&c02failure{"players", fmt.Sprintf("player %d missing from the result", i), false}); !c02skip(f.Check) {
+				return f
+			}
 		}
 	}
 	if sum != 0 {
-		return &c02failure{"zero-sum", fmt.Sprintf("changes sum to %d", sum), false}
+		if f := (&c02failure{"zero-sum", fmt.Sprintf("changes sum to %d", sum), false}); !c02skip(f.Check) {
+			return f
+		}
 	}
 	for i := 0; i < n; i++ {
 		if changed[i] < -c.Wagers[i] {
-			return &c02failure{"loss-bound", fmt.Sprintf("player %d loses %d but put in only %d", i, -changed[i], c.Wagers[i]), false}
+			if f := (&c02failure{"loss-bound", fmt.Sprintf("player %d loses %d but put in only %d", i, -changed[i], c.Wagers[i]), false}); !c02skip(f.Check) {
+				return f
+			}
 		}
 		if c.Folds[i] && changed[i] > 0 {
-			return &c02failure{"folded-wins", fmt.Sprintf("folded player %d wins %d", i, changed[i]), false}
+			if f := (&c02failure{"folded-wins", fmt.Sprintf("folded player %d wins %d", i, changed[i]), false}); !c02skip(f.Check) {
+				return f
+			}
 		}
 		// nobody wins from a layer they did not pay into: at most own stake from each opponent
 		var cap int64
@@ -101,7 +123,9 @@ func c02oracle(c c02case) *c02failure {
 			}
 		}
 		if changed[i] > cap {
-			return &c02failure{"gain-bound", fmt.Sprintf("player %d wins %d, more than its own stake from each opponent (%d)", i, changed[i], cap), false}
+			if f := (&c02failure{"gain-bound", fmt.Sprintf("player %d wins %d, more than its own stake from each opponent (%d)", i, changed[i], cap), false}); !c02skip(f.Check) {
+				return f
+			}
 		}
 	}
 	// expected change by the rule: every layer goes to the best-ranked non-folded players who paid into it
@@ -112,7 +136,9 @@ func c02oracle(c c02case) *c02failure {
 	}
 	// per published pot: winners are the best hands among the eligible players and split the pot equally
 	if len(r.Pots) != len(pots) {
-		return &c02failure{"pots", fmt.Sprintf("%d pot results for %d pots", len(r.Pots), len(pots)), false}
+		if f := (&c02failure{"pots", fmt.Sprintf("%d pot results for %d pots", len(r.Pots), len(pots)), false}); !c02skip(f.Check) {
+			return f
+		}
 	}
 	for j, pr := range r.Pots {
 		p := pots[j]
@@ -130,16 +156,24 @@ func c02oracle(c c02case) *c02failure {
 		nw := 0
 		for _, w := range pr.Winners {
 			if w.Idx < 0 || w.Idx >= n {
-				return &c02failure{"winner-unknown", fmt.Sprintf("pot %d: unknown winner %d", j, w.Idx), false}
+				if f := (&c02failure{"winner-unknown", fmt.Sprintf("pot %d: unknown winner %d", j, w.Idx), false}); !c02skip(f.Check) {
+					return f
+				}
 			}
 			if c.Folds[w.Idx] {
-				return &c02failure{"winner-folded", fmt.Sprintf("pot %d: folded player %d is a winner", j, w.Idx), false}
+				if f := (&c02failure{"winner-folded", fmt.Sprintf("pot %d: folded player %d is a winner", j, w.Idx), false}); !c02skip(f.Check) {
+					return f
+				}
 			}
 			if _, in := p.Contributors[w.Idx]; !in {
-				return &c02failure{"winner-not-contributor", fmt.Sprintf("pot %d: winner %d did not pay into it", j, w.Idx), false}
+				if f := (&c02failure{"winner-not-contributor", fmt.Sprintf("pot %d: winner %d did not pay into it", j, w.Idx), false}); !c02skip(f.Check) {
+					return f
+				}
 			}
 			if c.Scores[w.Idx] != best {
-				return &c02failure{"winner-not-best", fmt.Sprintf("pot %d: winner %d has score %d, best eligible score is %d", j, w.Idx, c.Scores[w.Idx], best), false}
+				if f := (&c02failure{"winner-not-best", fmt.Sprintf("pot %d: winner %d has score %d, best eligible score is %d", j, w.Idx, c.Scores[w.Idx], best), false}); !c02skip(f.Check) {
+					return f
+				}
 			}
 			total += w.Withdraw
 			if w.Withdraw < minW {
@@ -189,7 +223,9 @@ func c02oracle(c c02case) *c02failure {
 		take := changed[i] + c.Wagers[i]
 		if take < lo || take > hi {
 			known := take >= lo-slack && take <= hi+slack
-			return &c02failure{"share", fmt.Sprintf("player %d takes %d out of the pots it wins; equal shares give between %d and %d", i, take, lo, hi), known}
+			if f := (&c02failure{"share", fmt.Sprintf("player %d takes %d out of the pots it wins; equal shares give between %d and %d", i, take, lo, hi), known}); !c02skip(f.Check) {
+				return f
+			}
 		}
 	}
 	return nil
